@@ -19,7 +19,8 @@ EXTENDS Abasic, Json
 NumLeaves == { TkN(NInt(0)), TkN(NInt(1)), TkN(NInt(2)), TkN(NInt(3)), TkN(Mk(1, 1)),
                TkS("symbol", B("X")), TkS("symbol", B("U")) }
 StrLeaves == { TkS("stringliteral", <<>>), TkS("stringliteral", B("A")), TkS("stringliteral", B("B")),
-               TkS("symbol", B("S$")), TkS("symbol", B("U$")) }          \* S$ is set, U$ never assigned
+               TkS("symbol", B("S$")), TkS("symbol", B("U$")),           \* S$ is set, U$ never assigned
+               TkS("symbol", B("R5$")), TkS("stringliteral", B("5")) }   \* R5$ = "5" was READ from the numeric DATA item 5
 Leaves == {<<"leaf", t>> : t \in NumLeaves \cup StrLeaves}
 SpecLeaves == {<<"leaf", TkS("symbol", B("QN"))>>, <<"leaf", TkS("symbol", B("QP"))>>, <<"leaf", TkS("symbol", B("QM"))>>}
 SpecMix == SpecLeaves \cup {<<"leaf", t>> : t \in {TkN(NInt(0)), TkN(NInt(1)), TkN(NInt(2)), TkN(Mk(1, 1)), TkN(NInt(1101)), TkS("stringliteral", B("A"))}}
@@ -33,7 +34,7 @@ Fns == {B("ABS"), B("INT")}
 
 \* the state in which expressions are evaluated
 Vars0 == (B("X") :> VNum(Mk(5, 1))) @@ (B("S$") :> VStr(B("B")))
-         @@ (B("QN") :> VNum(NaN)) @@ (B("QP") :> VNum(PInf)) @@ (B("QM") :> VNum(NInf))      \* the IEEE special values
+         @@ (B("R5$") :> VStr(B("5"))) @@ (B("QN") :> VNum(NaN)) @@ (B("QP") :> VNum(PInf)) @@ (B("QM") :> VNum(NInf))      \* the IEEE special values
 I0 == [Fresh EXCEPT !.vars = Vars0]
 
 Prec(op) == CASE op = "or" -> 1 [] op = "and" -> 2 [] op \in EqualityOps -> 3
